@@ -1306,3 +1306,38 @@ def x_states( ctx ):
     if n_assign < 5:
         raise AnalysisError( 'loader: fewer than 5 state assignments found (%d)' % n_assign )
     return res
+
+
+@rule( 'T-LOCALIZE', props=( 'C17', ), floor=2 )
+def t_localize( ctx ):
+    """a parsed wall-clock time is attached to its zone only by tzinfo.localize( naive, is_dst=<hint> ) - the call that rejects ambiguous / nonexistent times when no DST designation was given; never by datetime.replace( tzinfo=... )"""
+    res = Result( 'T-LOCALIZE' )
+    src = ctx.src( TIMES )
+    fn = src.get( 'timestamp.datetime_from_string' )
+    rets = [ r for r in ast.walk( fn ) if isinstance( r, ast.Return ) and r.value is not None ]
+    if not rets:
+        raise AnalysisError( 'datetime_from_string: no return' )
+    n = 0
+    for r in rets:
+        m = pmatch( r.value, '_tz.localize( _naive, is_dst=_h )' )
+        if m is not None:
+            n += 1
+            hint = m['_h']
+            if isinstance( hint, ast.Name ):
+                res.ok( src, r, 'returns %s: ambiguous/nonexistent wall-clock times are rejected unless a DST designation was parsed' % norm_text( r.value )[:70] )
+            else:
+                res.bad( src, r, r.value, 'the is_dst hint must be the one derived from the zone designation (None = reject ambiguous times); a constant silently picks one of two instants' )
+        else:
+            res.bad( src, r, r.value, 'a naive wall-clock time must be attached to its zone with tzinfo.localize( naive, is_dst=hint ); any other construction maps ambiguous or nonexistent local times to some instant instead of rejecting them' )
+    for c in ast.walk( fn ):
+        if isinstance( c, ast.Call ) and isinstance( c.func, ast.Attribute ) and c.func.attr == 'replace' and any( k.arg in ( 'tzinfo', 'fold' ) for k in c.keywords ):
+            res.bad( src, c, c, 'datetime.replace( tzinfo=... ) never rejects an ambiguous or nonexistent wall-clock time' )
+    # the hint comes from timezone_info: abbreviation -> True/False, raw zone -> None
+    ti = src.get( 'timestamp.timezone_info' )
+    if pfind( ti, 'is_dst = None' ) and pfind( ti, '( tzinfo, is_dst, _x ) = cls._tzabbrev[tzinfo]' ):
+        res.ok( src, ti, 'timezone_info: is_dst None for a raw zone, True/False only from a DST-specific abbreviation' )
+    else:
+        res.bad( src, ti, 'timezone_info', 'a zone given without daylight-saving designation must yield is_dst None' )
+    if n < 1 and not res.findings:
+        raise AnalysisError( 'datetime_from_string: localize site not found' )
+    return res
